@@ -336,10 +336,14 @@ class OscArgsMatcher(AbstractMessageMatcher):
     def __call__(self, msg, time, addr, recv_port):
         args = msg[1:]
         for i, item in enumerate(self.arg_template):
+            if item is None:
+                continue
+            if i >= len(args):
+                return  # No argument at this position to match against.
             if callable(item):
                 if not item(args[i]):
                     return
-            elif item is not None and item != args[i]:
+            elif item != args[i]:
                 return
         fn.value(self.func, msg, time, addr, recv_port)
 
